@@ -391,6 +391,69 @@ func c18(c *core.Ctx) {
 	sum := c.Fn(pkgHydra + ".hydra.SummonSwamp")
 	info := sum.Info()
 
+	// C18.release: an instance leaves the live map only through its own teardown.
+	rRel := c.Rule("C18.release", "an instance is taken out of the live map only by its own teardown: hydra.swamps is deleted from only in the close callback, and the swamp announces itself closed (the call that runs that callback) only in a function that first published closing=1 on every path to the announcement - never from a waiter, a timeout branch or a status method: a name freed while its instance still runs lets the next summon create a second instance on the same file", 2)
+	{
+		cg := c.CG()
+		swampsF := p.MustField(pkgHydra, "hydra", "swamps")
+		closingF := p.MustField(pkgSwamp, "swamp", "closing")
+		// the callback: the function of hydra that deletes from the live map
+		var callbacks []*core.Func
+		for _, g := range p.FuncsIn(pkgHydra) {
+			if g.Decl.Body == nil {
+				continue
+			}
+			for _, a := range core.Accesses(g.Info(), g.Decl.Body, map[*types.Var]bool{swampsF: true}, true) {
+				switch a.Form {
+				case "method:Delete", "method:LoadAndDelete", "method:CompareAndDelete", "method:Clear":
+					callbacks = append(callbacks, g)
+				}
+			}
+		}
+		if len(callbacks) == 0 {
+			rRel.Bad(pkgHydra+":swamps.Delete", token.NoPos, "nothing removes instances from the live map (rule needs review)")
+		}
+		// announcers: swamp functions that invoke the close callback field (directly)
+		var announcers []*core.Func
+		for _, g := range p.FuncsIn(pkgSwamp) {
+			if g.Decl.Body == nil {
+				continue
+			}
+			core.Calls(g.Decl.Body, true, func(call *ast.CallExpr) {
+				if fld := core.FieldOf(g.Info(), call.Fun); fld != nil && strings.Contains(strings.ToLower(fld.Name()), "close") {
+					if _, isSig := fld.Type().Underlying().(*types.Signature); isSig {
+						announcers = append(announcers, g)
+					}
+				}
+			})
+		}
+		if len(announcers) == 0 {
+			rRel.Bad(pkgSwamp+":close-callback-call", token.NoPos, "no function of the swamp invokes the close callback (rule needs review)")
+		}
+		for _, an := range announcers {
+			for _, site := range cg.CallersOf(an) {
+				g := site.Caller
+				gi := g.Info()
+				body := core.BodyContaining(g.Decl, site.Call)
+				gfl := core.NewFlow(p, gi, body)
+				lc, ok := gfl.Locate(site.Call)
+				published := false
+				if ok {
+					for _, a := range core.Accesses(gi, body, map[*types.Var]bool{closingF: true}, false) {
+						if !a.Write {
+							continue
+						}
+						if la, ok2 := gfl.Locate(a.Node); ok2 && gfl.Dominates(la, lc) {
+							published = true
+						}
+					}
+				}
+				rRel.Check(published, g.Key+"->"+an.Obj.Name(), site.Call.Pos(), "announced only after this function published closing=1",
+					"the swamp is announced closed - its entry leaves the live map - from a function that did not start the teardown (no store to swamp.closing dominates the call): the instance keeps running while the next summon of the name builds a second one on the same file")
+			}
+		}
+	}
+
 	rW := c.Rule("C18.who", "createNewSwamp is called and hydra.swamps.Store executed only in SummonSwamp, after the waiter was taken (ready=true) and before it is released", 2)
 	{
 		cg := c.CG()
